@@ -206,6 +206,17 @@ def run(tier, seed):
         for pr in ((2, 2, 0), (2, 0, 2), (0, 2, 2), (1, 1, 1), (0, 1, 1)):
             items.append(("case", (cl, "plain", True, pr)))
             items.append(("case", (cl, "lexer", True, pr)))
+    # the same pattern (or label set) in two clauses, next to each other and apart
+    for i in idx:
+        for j in idx[:6]:
+            if i == j:
+                continue
+            pi, pj = c08.PATS[i], c08.PATS[j]
+            for cl in (((pi,), (pi,)), ((pi,), (pj,), (pi,)), ((pi, pj), (pj, pi)), ((pi, pj), (pi,))):
+                for variant in ("plain", "else", "mixbody"):
+                    items.append(("case", (cl, variant, False, None)))
+                items.append(("case", (cl, "plain", True, tuple(1 for _ in cl))))
+                items.append(("case", (cl, "lexer", True, None)))
     for it in case_items:
         if it[1] in ("plain", "else", "empty1") and not (it[2] and it[1] == "else"):
             items.append(("case", it[:4]))
